@@ -809,7 +809,7 @@ func (fe *FnEnc) index(x *ssa.Index) Val {
 	switch u := types.Unalias(x.X.Type()).Underlying().(type) {
 	case *types.Array:
 		fe.panicCheck("index", fmt.Sprintf("(and (<= 0 %s) (< %s %d))", i, i, u.Len()), x.Pos())
-		n := s.name("ix", s.sortOf(u.Elem()), "(select "+fe.valTerm(v)+" "+i+")")
+		n := s.name("ix", s.sortOf(u.Elem()), s.arrSelect(u, fe.valTerm(v), i))
 		s.assumeRange(u.Elem(), n)
 		return fe.wrapTerm(n, u.Elem())
 	case *types.Basic: // string index
@@ -915,7 +915,13 @@ func (fe *FnEnc) slice(x *ssa.Slice) Val {
 			hi = fmt.Sprint(arr.Len())
 		}
 		fe.panicCheck("slice", fmt.Sprintf("(and (<= 0 %s) (<= %s %s) (<= %s %d))", lo, lo, hi, hi, arr.Len()), x.Pos())
-		return Val{T: x.Type(), View: &View{Origin: a, Off: lo, Len: s.name("sl", "Int", "(- "+hi+" "+lo+")"), IsArray: true, Elem: arr.Elem(), NilFlag: "false"}}
+		ln := "(- " + hi + " " + lo + ")"
+		if ch, ok1 := isConstTerm(hi); ok1 {
+			if cl, ok2 := isConstTerm(lo); ok2 {
+				ln = numInt(new(big.Int).Sub(ch, cl))
+			}
+		}
+		return Val{T: x.Type(), View: &View{Origin: a, Off: lo, Len: s.name("sl", "Int", ln), IsArray: true, Elem: arr.Elem(), NilFlag: "false"}}
 	case *types.Basic:
 		fe.unsupported("string slicing")
 		return fe.freshVal("ss", x.Type())
